@@ -11,7 +11,7 @@ import warnings
 
 import numpy as np
 
-from .. import contracts, gen, geom
+from .. import aging, contracts, gen, geom
 
 PROPERTY = "C19"
 RULE = ("All ten classes from the generators in general position away from the origin (both polygon orientations, non-convex polygons, "
@@ -325,6 +325,19 @@ def run_case(i, rng, rec, tier, state):
         # --- to_hoomd ------------------------------------------------------------
         if which in HOOMD_KEYS:
             check_hoomd(rec, cs, s, which, info, c)
+        # between the rounds of every other three-round case the object is resized / moved / given another semi-axis through
+        # its public setters: the representations taken afterwards have to describe the shape as it is *now*
+        if rounds == 3 and rnd < 2 and (i // len(classes)) % 4 == 0:
+            hist = aging.age(s, rng, steps=1, allow=("size", "axis", "radius", "move"), reads=False)
+            rec.cls("history:changed-between-rounds")
+            with contracts.quiet():
+                for a in ("vertices", "radius", "a", "b", "c", "centroid", "normal"):
+                    try:
+                        v = getattr(s, a)
+                        info[a] = np.array(v, copy=True) if isinstance(v, np.ndarray) else v
+                    except Exception:
+                        pass
+            info["history"] = info.get("history", []) + hist
     rec.nontriv(which, info.get("vertices", info.get("a", info.get("radius"))), info.get("centroid"))
     if i < 10:
         rec.sample({"class": which, "repr": repr(s)[:160]})
